@@ -761,6 +761,15 @@ def s_opaque(T):
     return Rope((('opq', T, 0, T.len),))
 
 
+def char_at(T, p):
+    """code point of text T at position p; for a text declared free of ESC the ground fact is recorded too"""
+    T.chars_used = True
+    a = atom(z3.Select(T.chars, Z(p)))
+    if getattr(T, 'escfree', False) and CUR is not None:
+        CUR.assume(i_cmp('!=', a, 27))
+    return a
+
+
 def s_chars(s):
     """list of code points (int | z3) when the string consists of lit/chr atoms only, else None"""
     if isinstance(s, str):
@@ -772,8 +781,7 @@ def s_chars(s):
         elif a[0] == 'chr':
             out.append(a[1])
         elif a[0] == 'opq' and _eqz(i_sub(a[3], a[2]), 1):
-            a[1].chars_used = True
-            out.append(atom(z3.Select(a[1].chars, Z(a[2]))))
+            out.append(char_at(a[1], a[2]))
         else:
             return None
     return out
@@ -978,6 +986,20 @@ def s_eq(a, b, _depth=0):
         if len(ca) != len(cb):
             return False
         return b_and(*[i_cmp('==', x, y) for x, y in zip(ca, cb)])
+    # a slice of known small length against characters: compare the characters of the slice
+    for X, Y, yc in ((A, B, cb), (B, A, ca)):
+        if len(X) == 1 and X[0][0] == 'opq' and yc is not None:
+            ln = i_sub(X[0][3], X[0][2])
+            if is_z3(ln) and CUR is not None and len(yc) <= 8:
+                # decide the (small) length of the slice on this path
+                if CUR.truth(i_cmp('!=', ln, len(yc))):
+                    return False
+                ln = len(yc)
+            if not is_z3(ln):
+                if ln != len(yc):
+                    return False
+                if ln <= 8:
+                    return b_and(*[i_cmp('==', char_at(X[0][1], i_add(X[0][2], k)), yc[k]) for k in range(ln)])
     # whole opaque texts: value identity
     if len(A) == 1 and len(B) == 1 and A[0][0] == 'opq' and B[0][0] == 'opq':
         ta, tb = A[0], B[0]
